@@ -9,6 +9,8 @@ CHECKS = {
  "C18": dict(text="Bounded model checking of the real DisjunctRangeSet.AddRange/insertRange/AddLexTNode/List/Range and Item.match (go/ssa -> QF_BV): one inductive step from an arbitrary well-formed class set plus a from-empty run; unsat for every rune/range value inside the bound.", ref="7 C18", tech="symbolic execution of go/ssa into QF_BV, inductive step + BMC, decided by z3/cvc5"),
  "C02": dict(text="Bounded model checking of the generated Parser.Parse (tables and driver emitted by the current gocc on every run) against a CYK recogniser over /verif's own representation of each corpus grammar: for every token sequence up to the length bound, err == nil iff the sequence is a sentence; termination = unwinding assertion of the parse loop.", ref="7 C02", tech="symbolic execution of generated Go (go/ssa -> QF_BV, path forking decided by the solver) against an executable CYK oracle; z3/cvc5"),
  "C03": dict(text="Bounded model checking of the generated parser with recording actions on every alternative: for every token sequence up to the bound and every choice of a failing action, the recorded calls are the post-order evaluation of a derivation tree with the scanner's own token objects at the leaves; default actions checked on the generated reduce functions.", ref="7 C03", tech="symbolic execution of generated Go with trace-checking harness (QF_BV), decided by z3/cvc5"),
+ "C04": dict(text="Kernel level only: bounded model checking of (*ItemSet).Action on every item set of up to K arbitrary items in every order (a conflict is reported iff two different actions compete; accept competing with a reduction is refused by a panic) and of main.handleConflicts (non-zero exit iff conflicts and no -a). The grammar axis is not symbolic; closure/goto are covered only through the corpus pipelines of C02/C05.", ref="7 C04", tech="symbolic execution of go/ssa into QF_BV (path forking in Action), decided by z3/cvc5"),
+ "C05": dict(text="Kernel: (*ItemSet).Action returns the shift if any item shifts, else the reduction with the smallest production index, for every item set up to K items in every order. Pipeline: conflicting corpus grammars through gocc -a, generated Parse in lock-step with /verif's own canonical LR(1) automaton resolved by the stated rule: same verdict and same reduction sequence for every token sequence up to the bound.", ref="7 C05", tech="symbolic execution of go/ssa and of generated Go in lock-step with a reference LR(1) machine (QF_BV), decided by z3/cvc5"),
  "C06": dict(text="Bounded model checking of error reports of the generated parser against a viable-prefix recogniser: first offending token (object identity), no action with it as look-ahead, expected list = exact follow set of the valid prefix, for every non-sentence up to the length bound.", ref="7 C06", tech="symbolic execution of generated Go against an executable viable-prefix oracle (QF_BV), decided by z3/cvc5"),
  "C07": dict(text="Bounded model checking of error recovery in the generated parser: for every token sequence up to the bound on grammars with error alternatives, no panic record and no unwinding failure of Parse/Error/popNonRecoveryStates/firstRecoveryState is satisfiable; verdict, reductions, attributes and error attributes equal those of a reference LR driver with its own transcription of the stated recovery rule; error alternatives are inert on sentences of the error-free twin (CYK).", ref="7 C07", tech="symbolic execution of generated Go in lock-step with a reference driver (QF_BV, solver-decided path forking), z3/cvc5"),
  "C08": dict(text="Bounded model checking of the generated Lexer.Scan (emitted by the current template on every run): one Scan from every reachable (offset,line,column) on ABSTRACT tables (transition function uninterpreted, action rows arbitrary under the generator's row contract: all lexers with <= 4 states at once) and on the real tables of corpus lexers; positions, literal, tiling and the re-established position invariant are asserted for every source up to the byte bound.", ref="7 C08", tech="symbolic execution of the generated Go (go/ssa -> QF_BV) over uninterpreted lexer tables, inductive step, decided by z3/cvc5"),
